@@ -75,6 +75,9 @@ Definition seg_bounds (a b : point) : point * point :=
   (P (Z.min (px a) (px b)) (Z.min (py a) (py b)), P (Z.max (px a) (px b)) (Z.max (py a) (py b))).
 Definition celltext_end_cell (t : celltext) : cell :=
   C (cx (ctstart t) + text_columns (ctcontent t)) (cy (ctstart t)).
+(** the last cell the text occupies ([end_cell] is one past it); repair F14: the bounds end there *)
+Definition celltext_last_cell (t : celltext) : cell :=
+  C (cx (ctstart t) + Z.max (text_columns (ctcontent t) - 1) 0) (cy (ctstart t)).
 Definition polygon_bounds (p : polygon) : point * point :=
   match ppoints p with
   | [] => (P 0 0, P 0 0)   (* never built: table polygons have at least 3 points (T1) *)
@@ -91,7 +94,7 @@ Definition bounds (f : fragment) : point * point :=
   | FArc a => seg_bounds (astart a) (aend a)
   | FPolygon p => polygon_bounds p
   | FRect r => seg_bounds (rstart r) (rend r)
-  | FCellText t => (top_left_most (ctstart t), bottom_right_most (celltext_end_cell t))
+  | FCellText t => (top_left_most (ctstart t), bottom_right_most (celltext_last_cell t))
   end.
 Definition mins f := fst (bounds f).
 Definition maxs f := snd (bounds f).
